@@ -178,6 +178,16 @@ def make_request(w, c, workdir, idx):
     setenv["C15X_DUMP"] = dump
     if c["sig"]:
         setenv["C15X_SIG"] = str(c["sig"])
+    wait = ""
+    if c.get("bg"):
+        # a detached descendant outlives the child and writes late to the inherited stdout / stderr
+        wait = dump + ".done"
+        setenv["C15X_BG"] = str(c["bg"])
+        setenv["C15X_BG_DONE"] = wait
+        if c.get("late_out"):
+            setenv["C15X_LATE_OUT"] = HX(c["late_out"])
+        if c.get("late_err"):
+            setenv["C15X_LATE_ERR"] = HX(c["late_err"])
     if c["via_map"]:
         setenv["C15X_EXIT"] = str((c["exit"] + 1) % 256)
         envm.append(["C15X_EXIT", str(c["exit"])])
@@ -188,7 +198,7 @@ def make_request(w, c, workdir, idx):
     uses = c["fn"] in WITH_ENV
     raw = {"fn": c["fn"], "cmd": HX(w.subst(c["cmd"])), "args": [HX(a) for a in c["args"]],
            "setenv": {HX(k): HX(v) for k, v in setenv.items()}, "unset": [], "stdin": HX(c["stdin"]),
-           "so": c["so"], "se": c["se"], "dump": dump, "tmp": workdir}
+           "so": c["so"], "se": c["se"], "dump": dump, "tmp": workdir, "wait": wait}
     if uses and envm is not None:
         raw["env"] = {HX(k): HX(v) for k, v in envm}
     return {"op": "sh", "raw": raw}, setenv, (envm if uses else None)
@@ -255,8 +265,8 @@ def oracle(w, c, a, setenv, envm):
     started = d is not None
     exited = started and d["sig"] == 0
     k = d["exit"] if exited else None
-    out = unhex(d["out"]) if started else ""
-    errp = unhex(d["err"]) if started else ""
+    out = unhex(d["out"]) + unhex(d.get("late_out") or "") if started else ""       # everything written to the stream, the
+    errp = unhex(d["err"]) + unhex(d.get("late_err") or "") if started else ""      # late writes of a descendant included
     # 1. nil iff exit 0
     if a["err_nil"] != (exited and k == 0):
         bad.append("error is %s but the command %s" % ("nil" if a["err_nil"] else "non-nil: " + a["err_text"][:80],
@@ -388,11 +398,11 @@ def case_term(w, c, a, envm):
     fn = c["fn"]
     ent = "(FExec %s %s)" % (WSO[c["so"]], WSE[c["se"]]) if fn == "Exec" else "F" + fn
     if d is not None:
-        child = child_term(d["exit"], d["sig"], unhex(d["out"]), unhex(d["err"]))
+        child = child_term(d["exit"], d["sig"], unhex(d["out"]) + unhex(d.get("late_out") or ""), unhex(d["err"]) + unhex(d.get("late_err") or ""))
         started = "(Some (%s, %s))" % (coq_list([cs(unhex(x)) for x in d["argv"]]), coq_list([cs(unhex(x)) for x in d["env"] if not unhex(x).startswith(LONG_DIRECTIVES)]))
         stdin_ok = d["stdin_sha"] == hashlib.sha256(B(c["stdin"])).hexdigest()
     else:
-        child = child_term(c["exit"], c["sig"], c["out"], c["err"])      # what it would have done
+        child = child_term(c["exit"], c["sig"], c["out"] + c.get("late_out", ""), c["err"] + c.get("late_err", ""))      # what it would have done
         started = "None"
         stdin_ok = True
     obs = ("{| o_ran := %s; o_err := %s; o_mg := %s; o_sh := %s; o_cmdran := %s; o_text := %s; o_started := %s; o_stdin_ok := %s; "
@@ -463,6 +473,18 @@ def run(ctx):
                 c["env"] = [kv for kv in (c["env"] or []) if kv[0] not in ("C15_BIN", "C15_DIR")] if c["env"] is not None else None
             c["shape"] = shape
             cases.append(c)
+    # a child that exits k while a detached descendant keeps the inherited stdout (resp. stderr) open for 1.2 s and then
+    # writes a late line: the command exited k, whatever its descendants do (few: each costs 1.2 s of waiting)
+    for k in (0, 3):
+        for which, fns in (("out", [(f, "buf", "buf") for f in FNS]),
+                           ("err", [("Exec", "buf", "buf"), ("Exec", "nil", "buf"), ("Output", "nil", "nil"), ("RunV", "nil", "nil")])):
+            for fn, so, se in fns:
+                c = gen_case(rng, exit_code=k, fn=fn, good_cmd=True)
+                c["sig"], c["so"], c["se"], c["bg"] = 0, so, se, 1200
+                c["late_out"] = "late line\n" if which == "out" else ""
+                c["late_err"] = "late err\n" if which == "err" else ""
+                c["out"] = rng.choice(["first\n", "", "no newline"])
+                cases.append(c)
     nrand = 300 if ctx.quick else 9000
     for _ in range(nrand):
         cases.append(gen_case(rng))
@@ -478,6 +500,7 @@ def run(ctx):
     byfn, outcome, verb = {}, {"exit0": 0, "exit_nonzero": 0, "signaled": 0, "not_started": 0}, {"on": 0, "off": 0}
     codes_seen = set()
     shapes = {}
+    cov_bg = [0]
     n_args = n_args_decided = n_bad = 0
     for i, (c, (a, setenv, envm)) in enumerate(zip(cases, results)):
         if c.get("raw"):
@@ -496,6 +519,8 @@ def run(ctx):
         idx_call.append(i)
         d = a["dump"]
         byfn[c["fn"]] = byfn.get(c["fn"], 0) + 1
+        if c.get("bg"):
+            cov_bg[0] += 1
         if c.get("shape"):
             shapes[c["shape"]] = shapes.get(c["shape"], 0) + (1 if d is None else 0)
         if d is None:
@@ -549,6 +574,7 @@ def run(ctx):
     cov["raw_error_cases"] = len(raw_items)
     cov["by_function"] = byfn
     cov["outcomes"] = outcome
+    cov["calls_with_late_writing_descendant"] = cov_bg[0]
     cov["not_startable_shapes_observed_not_started"] = shapes
     cov["verbose"] = verb
     cov["exit_codes_observed"] = len(codes_seen)
